@@ -39,6 +39,9 @@ pub struct Asset {
     pub asset_name: Vec<u8>,
     /// print the name as a "string" literal (must be printable ascii without quotes) or as hex
     pub name_as_string: bool,
+    /// mutants only: source text written in place of the policy literal / of the asset name
+    pub raw_policy: Option<String>,
+    pub raw_asset_name: Option<String>,
 }
 
 #[derive(Clone, Debug)]
@@ -532,9 +535,14 @@ impl Printer {
             self.kw("asset");
             self.raw(&a.name);
             self.tok("=");
-            self.tok(&hex(&a.policy));
+            match &a.raw_policy {
+                Some(r) => self.raw(r),
+                None => self.tok(&hex(&a.policy)),
+            }
             self.tok(".");
-            if a.name_as_string {
+            if let Some(r) = &a.raw_asset_name {
+                self.raw(r);
+            } else if a.name_as_string {
                 self.tok(&format!("\"{}\"", String::from_utf8_lossy(&a.asset_name)));
             } else {
                 self.tok(&hex(&a.asset_name));
